@@ -513,7 +513,7 @@ async def exec_case(ctx, r: random.Random, index: int):
 async def corr_exec(ctx):
     import asyncio
 
-    n = ctx.budget(250, 5000)
+    n = ctx.budget(250, 4000)
     all_lines, all_answers, scs = [], [], []
     for i in range(n):
         r = ctx.rng("exec", i)
@@ -928,7 +928,7 @@ def run_build_case(spec: dict) -> dict:
 async def search(ctx):
     import simpool
 
-    ncase = ctx.budget(1500, 40000)
+    ncase = ctx.budget(1500, 30000)
     specs = [make_spec(ctx.seed, i, ctx.tier) for i in range(ncase)]
     soft = 50 if ctx.tier == "quick" else 900
     ran = 0
